@@ -39,7 +39,8 @@ let h_listing req =
   let spec = List.map (fun n ->
       (string_of_int n,
        Arr (List.map (fun f -> Arr [ jn f.f_name; jlist j_row (spec_rows (nat_of_int n) (num_lines f) f.f_name ems) ]) cm))) ns in
-  Obj [ ("model", Obj model); ("spec", Obj spec); ("text", Obj text) ]
+  let guard = List.map (fun n -> (string_of_int n, Bool (match to_listing_checked cm sm segs (nat_of_int n) with Some _ -> true | None -> false))) ns in
+  Obj [ ("model", Obj model); ("spec", Obj spec); ("text", Obj text); ("accepted", Obj guard) ]
 
 let h_queries req =
   let cm = List.map file_of (to_list (field req "files")) in
